@@ -100,7 +100,7 @@ var c07Tokens = []string{
 }
 
 // the reduced alphabet enumerated one token deeper
-var c07TokensCore = []string{"->", "---", " ", "\n", "x", "QUFB", strings.Repeat("QUFB", 16), strings.Repeat("QUFB", 16) + "QQ", "Vn+54jqiiUCE+WZcEVY3f1sqHjlu/z1LCQ/T7Xm7qI0"}
+var c07TokensCore = []string{"->", "---", " ", "\n", "x", "QUFB", strings.Repeat("QUFB", 16), strings.Repeat("QUFB", 15) + "QUE", strings.Repeat("QUFB", 16) + "QQ", "Vn+54jqiiUCE+WZcEVY3f1sqHjlu/z1LCQ/T7Xm7qI0"}
 
 const c07MAC = "Vn+54jqiiUCE+WZcEVY3f1sqHjlu/z1LCQ/T7Xm7qI0"
 
@@ -216,6 +216,9 @@ func genBodyLen(t *rapid.T) int {
 func genStanza(t *rapid.T) refage.Stanza {
 	st := refage.Stanza{Type: genArg(t, "type")}
 	na := rapid.IntRange(0, 5).Draw(t, "nargs")
+	if rapid.IntRange(0, 9).Draw(t, "manyArgs") == 0 {
+		na = rapid.IntRange(6, 12).Draw(t, "nargs2")
+	}
 	for i := 0; i < na; i++ {
 		st.Args = append(st.Args, genArg(t, "arg"))
 	}
@@ -247,7 +250,7 @@ func genDelivery(t *rapid.T) hx.Delivery {
 
 // mutate applies one grammar-aware edit to a valid header text.
 func c07Mutate(t *rapid.T, in []byte) ([]byte, string) {
-	kind := rapid.SampledFrom([]string{"ins-space", "ins-cr", "ins-lf", "ins-pad", "del-byte", "dup-byte", "flip-case", "noncanon-b64", "split-line", "join-line", "ins-ctl", "ins-utf8", "swap-lines", "ins-tab", "trunc", "extend-line"}).Draw(t, "mut")
+	kind := rapid.SampledFrom([]string{"ins-space", "ins-cr", "ins-lf", "ins-pad", "del-byte", "dup-byte", "flip-case", "noncanon-b64", "split-line", "join-line", "ins-ctl", "ins-utf8", "swap-lines", "ins-tab", "trunc", "extend-line", "move-break"}).Draw(t, "mut")
 	if len(in) == 0 {
 		return in, kind
 	}
@@ -332,6 +335,18 @@ func c07Mutate(t *rapid.T, in []byte) ([]byte, string) {
 		return bytes.Join(lines, nil), kind
 	case "trunc":
 		return append([]byte{}, in[:pos]...), kind
+	case "move-break":
+		// move a line break one to three characters to the left: same characters, other wrapping
+		for i := pos; i < len(in); i++ {
+			if in[i] == '\n' && i > 4 {
+				k := rapid.IntRange(1, 3).Draw(t, "shift")
+				out := append([]byte{}, in[:i-k]...)
+				out = append(out, '\n')
+				out = append(out, in[i-k:i]...)
+				return append(out, in[i+1:]...), kind
+			}
+		}
+		return in, kind
 	case "extend-line":
 		// append 1..4 base64 characters to the line containing pos
 		for i := pos; i < len(in); i++ {
